@@ -83,7 +83,7 @@ func nextNonce() string { return fmt.Sprintf("n%d", nonce.Add(1)) }
 //
 //	ok                      200, a JSON document that is at once a DID document (id = ?id= or derived from host+path),
 //	                        OAuth metadata and a JSON-LD context
-//	r<code>-<target>        redirect with <code> to <target> ∈ same-https | other-https | same-http | other-http,
+//	r<code>-<target>        redirect with <code> to <target> ∈ same-https | other-https | same-http | other-http | same-HTTP,
 //	                        Location = <target origin>/<nonce>/ok/<tail>?id=<did of this request>
 //	rr<code>-<target>       redirect to https same host r<code>-<target> first (two hops)
 func labHandler(listener string, w nethttp.ResponseWriter, r *nethttp.Request) {
@@ -155,6 +155,8 @@ func labHandler(listener string, w nethttp.ResponseWriter, r *nethttp.Request) {
 			origin = "https://" + other
 		case "same-http":
 			origin = "http://" + host
+		case "same-HTTP": // the scheme of the redirect target in capitals
+			origin = "HTTP://" + host
 		case "other-http":
 			origin = "http://" + other
 		default:
